@@ -26,7 +26,7 @@ OWN = {
             "recorded_preselection_is_the_assemblys_answer", "commit_without_a_list_changes_nothing"},
     "C10": {"no_panic", "unreadable_store_is_treated_as_absent", "failed_save_loses_at_most_that_choice", "commit_ends_the_word",
             "reload_keeps_the_word_in_progress", "save_replaces_the_whole_file", "nothing_owned_is_forgotten",
-            "file_newer_than_the_last_successful_load_is_read"},
+            "file_newer_than_the_last_successful_load_is_read", "every_learning_commit_attempts_its_save"},
     "C11": {"reloaded_context_equals_a_new_one", "reloaded_list_is_in_use", "configuration_is_replaced", "same_layout_keeps_the_method_and_its_word",
             "changed_layout_replaces_the_method", "later_events_see_the_new_configuration", "method_matches_the_configured_layout",
             "method_is_new_or_refreshed_by_the_update", "event_result_is_the_methods_result", "events_use_the_contexts_data", "current_method_is_last",
